@@ -9,8 +9,12 @@
      _FIND_BIG_WORD_RE  ([^\s]+)                           finditer = maximal runs of non-blanks
      _FIND_CURRENT_*    ^( run )  / ^( run \s* )           search   = run at offset 0 (+ following blanks)
    and `re.finditer(re.escape(sub), text, flags)` by leftmost non-overlapping
-   literal search ([lit_matches]) under a character equivalence [ceq]
-   (identity, or ASCII case folding for re.IGNORECASE). *)
+   literal search ([lit_matches]) under a character equivalence [ceq]: the
+   identity, or for re.IGNORECASE the per-character relation regenerated from
+   CPython's re ([ceq_fold] in Model/C02_Run.v, table Gen/C02_CaseFold.v;
+   [ceq_ascii] below is only a convenience instance and is not what run_C02
+   uses).  The queries here are cache-free; the module-level line cache
+   (_text_to_document_cache) is modelled in Model/C02_Cache.v. *)
 From Coq Require Import ZArith List Bool.
 From PTK Require Import Lib.Sx Lib.Py Gen.Whitespace Model.Document.
 Import ListNotations.
